@@ -17,6 +17,9 @@ for d in sorted(glob.glob(V + '/seeded/*')):
     verdict = 'caught' if m.get('caught') else 'NOT caught'
     if hist:
         verdict = 'caught after strengthening' if m.get('caught') else 'NOT caught'
+    if m.get('expected') == 'thorough-only':
+        verdict = 'missed by the quick tier, caught by the thorough tier (see meta.json)'
+        sigs = [(m.get('thorough_result') or {}).get('signature', '')]
     if m.get('expected') == 'silent':
         verdict = 'not caught, by design: allowed by the documented contract (see meta.json note)'
     rows.append(f"| {name} | {summ} | {verdict} | {'; '.join(sigs[:2])} |")
